@@ -1333,8 +1333,8 @@ class Interp:
             raise Unsupported("truth value of term of sort %s" % v.sort())
         if isinstance(v, (str, tuple, bytes)):
             return len(v) > 0
-        if type(v).__name__ == "PickleBlob":
-            return True  # pickle.dumps never returns an empty byte string
+        if type(v).__name__ in ("PickleBlob", "ReMatch"):
+            return True  # pickle.dumps never returns an empty byte string; a match object is truthy
         if isinstance(v, frozenset):
             return len(v) > 0
         if isinstance(v, (FrozenList, FrozenDict)):
